@@ -12,7 +12,9 @@ EXTENDS Naturals, Sequences, FiniteSets, TLC, Json
 
 (* character / content classes *)
 Plain == {"ident", "dash", "dot", "dotdigit", "digitstart", "unicode", "astral", "space"}
-Breaking == {"squote", "dquote", "backslash", "newline", "cr", "ls", "nul", "nuldigit", "hash", "lt"}
+(* (U+0000 before a digit of each kind: `\0` followed by 0-7 would be a legacy octal escape, by 8 or 9 an escape that
+   strict mode refuses as well) *)
+Breaking == {"squote", "dquote", "backslash", "newline", "cr", "ls", "nul", "nuldigit", "nuldigit0", "nuldigit9", "hash", "lt"}
 AllChars == Plain \cup Breaking
 Words == {"reserved2", "reserved3", "reserved-long", "proto"}          \* if / for / class / __proto__
 Bodies == {"plain-body", "line-comment-end", "no-semicolon", "closing-tag-like", "template-literal", "regex-star",
